@@ -1050,9 +1050,11 @@ impl Visitor<Diagnostic> for LibraryRenderer {
                 self.write_ws(",");
                 self.visit_action_time_kind(time)?;
             }
-            if !node.indicators.is_empty() {
-                self.write_ws(",");
-            }
+        }
+
+        // The indicators follow a comma, with or without a qualifier
+        if !node.indicators.is_empty() {
+            self.write_ws(",");
         }
 
         visit_comma_separated!(self, node.indicators.iter(), Id);
